@@ -248,8 +248,66 @@ def enum_cyclic(tier, worker, nworkers):
             yield {"shape": n, "d": 3000, "limits": [5, 20, 1000000], "near": 0, "cli": False}
 
 
+# ---------------------------------------------------------------------------------------------
+# self-dependence through files: a cycle of imports, each hop spelled differently (./, ../dir/, absolute), is one value
+# depending on itself - "infinite recursion" under any limit that is larger than the cycle
+IMPORT_DIRS = [".", "a", "b", "a/sub", "b/x/y"]
+
+
+@st.composite
+def import_cycle_case(draw):
+    k = draw(st.integers(1, 4))
+    return {"dirs": [draw(st.integers(0, len(IMPORT_DIRS) - 1)) for _ in range(k)], "spell": [draw(st.integers(0, 3)) for _ in range(k + 1)],
+            "limit": draw(st.sampled_from([100, 200, 500, 500, 2000])), "kind": draw(st.sampled_from(["field", "field", "array", "plain"]))}
+
+
+def check_import_cycle(case):
+    import os
+    import tempfile
+    k = len(case["dirs"])
+    with tempfile.TemporaryDirectory(prefix="c10-") as root:
+        root = os.path.realpath(root)
+        for d in IMPORT_DIRS:
+            os.makedirs(os.path.join(root, d), exist_ok=True)
+        dirs = [IMPORT_DIRS[i] for i in case["dirs"]]
+        paths = [os.path.normpath(os.path.join(root, dirs[i], f"f{i}.libsonnet")) for i in range(k)]
+
+        def spelled(from_dir, target, how):
+            rel = os.path.relpath(target, from_dir)
+            if how == 1:
+                return "./" + rel
+            if how == 2 and os.path.realpath(from_dir) != root:
+                return os.path.join("..", os.path.basename(from_dir), rel)
+            if how == 3:
+                return target
+            return rel
+
+        for i in range(k):
+            nxt = paths[(i + 1) % k]
+            sp = spelled(os.path.dirname(paths[i]), nxt, case["spell"][i])
+            imp = "(import '%s')" % sp
+            body = {"field": "{v: %s.v}" % imp, "array": "[%s[0]]" % imp, "plain": imp}[case["kind"]]
+            with open(paths[i], "w") as f:
+                f.write(body)
+        main = os.path.join(root, "main.jsonnet")
+        sp0 = spelled(root, paths[0], case["spell"][k])
+        with open(main, "w") as f:
+            f.write({"field": "(import '%s').v", "array": "(import '%s')[0]", "plain": "import '%s'"}[case["kind"]] % sp0)
+        rc, out, err = run_cli(["-s", str(case["limit"]), "main.jsonnet"], cwd=root)
+        text = err.decode("utf-8", "replace")
+        what = f"import cycle of {k} file(s) in {dirs}, spellings {case['spell']}, kind {case['kind']}, -s {case['limit']}"
+        if rc != 1:
+            raise Violation("import-cycle-exit", f"exit status {rc} (expected 1) for an {what}: {text[-300:]}")
+        if out:
+            raise Violation("import-cycle-stdout", f"output written for an {what}")
+        if "infinite recursion" not in text:
+            raise Violation("import-cycle-not-detected", f"an {what} is not reported as infinite recursion: {text[:300]!r}")
+    return {"nontrivial": k >= 2 or any(case["spell"]), "labels": [f"k={k}", case["kind"]], "sample": {"dirs": dirs, "spell": case["spell"], "limit": case["limit"], "kind": case["kind"]}}
+
+
 CHECKS = [
     Check("every_shape_once", check_sweep, enumerate_fn=enum_cyclic, exhaustive=True),
     Check("limit_sweep", check_sweep, sweep_case, quick=40, thorough=4000),
     Check("threshold_monotone_in_depth", check_threshold, threshold_case, quick=8, thorough=600),
+    Check("import_cycles_spelled_differently", check_import_cycle, import_cycle_case, quick=25, thorough=800),
 ]
